@@ -160,6 +160,63 @@ Proof.
       rewrite (s_tasks a b S t). apply upd_ext. apply (s_tasks a b S).
     + apply (s_sent a b S).
     + apply (s_recvd a b S).
+  - (* TrySend *)
+    destruct (_ && _) in St; [|discriminate].
+    destruct (rx a) eqn:RX.
+    + destruct (full (cap a) (buf a)).
+      * injection St as <- <-. cbn [observe]. rewrite (s_rx a b S), RX. cbn.
+        eexists. split; [reflexivity|]. (constructor; cbn; rewrite ?app_nil_r, ?orb_false_r;
+          try apply (s_buf a b S); try apply (s_cap a b S); try apply (s_rx a b S);
+          try apply (s_rxw a b S); try apply (s_rxd a b S); try apply (s_n a b S);
+          try apply (s_sent a b S); try apply (s_recvd a b S); try (intros i; apply (s_tasks a b S));
+          try (symmetry; exact RX); try (rewrite (s_rx a b S); exact RX)).
+      * injection St as <- <-. cbn [observe]. rewrite (s_rx a b S), RX. cbn.
+        eexists. split; [reflexivity|]. constructor; cbn; rewrite ?existsb_wrecv_if.
+        -- rewrite (s_buf a b S). reflexivity.
+        -- apply (s_cap a b S).
+        -- first [symmetry; exact RX|rewrite (s_rx a b S); exact RX|exact RX|reflexivity].
+        -- rewrite (s_rxw a b S). reflexivity.
+        -- apply (s_rxd a b S).
+        -- apply (s_n a b S).
+        -- intros i. rewrite (wake_tasks_wrecv_only _ _ i (wrecv_only_if _)). apply (s_tasks a b S).
+        -- rewrite (s_sent a b S). reflexivity.
+        -- apply (s_recvd a b S).
+    + injection St as <- <-. cbn [observe]. rewrite (s_rx a b S), RX. cbn.
+      eexists. split; [reflexivity|]. (constructor; cbn; rewrite ?app_nil_r, ?orb_false_r;
+          try apply (s_buf a b S); try apply (s_cap a b S); try apply (s_rx a b S);
+          try apply (s_rxw a b S); try apply (s_rxd a b S); try apply (s_n a b S);
+          try apply (s_sent a b S); try apply (s_recvd a b S); try (intros i; apply (s_tasks a b S));
+          try (symmetry; exact RX); try (rewrite (s_rx a b S); exact RX)).
+    + injection St as <- <-. cbn [observe]. rewrite (s_rx a b S), RX. cbn.
+      eexists. split; [reflexivity|]. (constructor; cbn; rewrite ?app_nil_r, ?orb_false_r;
+          try apply (s_buf a b S); try apply (s_cap a b S); try apply (s_rx a b S);
+          try apply (s_rxw a b S); try apply (s_rxd a b S); try apply (s_n a b S);
+          try apply (s_sent a b S); try apply (s_recvd a b S); try (intros i; apply (s_tasks a b S));
+          try (symmetry; exact RX); try (rewrite (s_rx a b S); exact RX)).
+  - (* CloneSender *)
+    destruct (_ && _) in St; [|discriminate]. inversion St; subst; clear St. cbn [observe].
+    eexists. split; [reflexivity|]. constructor; cbn; rewrite ?orb_false_r; try reflexivity.
+    + apply (s_buf a b S).
+    + apply (s_cap a b S).
+    + apply (s_rx a b S).
+    + apply (s_rxw a b S).
+    + apply (s_rxd a b S).
+    + rewrite (s_n a b S). reflexivity.
+    + intros i. rewrite (s_n a b S). apply upd_ext. apply (s_tasks a b S).
+    + apply (s_sent a b S).
+    + apply (s_recvd a b S).
+  - (* CancelSend *)
+    destruct (_ && _) in St; [|discriminate]. inversion St; subst; clear St. cbn [observe].
+    eexists. split; [reflexivity|]. constructor; cbn; rewrite ?orb_false_r; try reflexivity.
+    + apply (s_buf a b S).
+    + apply (s_cap a b S).
+    + apply (s_rx a b S).
+    + apply (s_rxw a b S).
+    + apply (s_rxd a b S).
+    + apply (s_n a b S).
+    + intros i. rewrite (s_tasks a b S t). apply upd_ext. apply (s_tasks a b S).
+    + apply (s_sent a b S).
+    + apply (s_recvd a b S).
   - (* CloseRx *)
     destruct (rx a) eqn:RX; try discriminate. destruct (_ || _) in St; [|discriminate].
     inversion St; subst; clear St. cbn [observe].
@@ -237,13 +294,15 @@ Proof. intros [x| |] [y| |] E; cbn in E; try discriminate; [apply N.eqb_eq in E;
 
 Lemma obs_eqb_sound : forall x y, obs_eqb x y = true -> x = y.
 Proof.
-  intros [r f w|r w|w|] [r' f' w'|r' w'|w'|] E; cbn in E; try discriminate; try reflexivity.
+  intros [r f w|r w|w|r w|] [r' f' w'|r' w'|w'|r' w'|] E; cbn in E; try discriminate; try reflexivity.
   - apply andb_true_iff in E. destruct E as [E E3]. apply andb_true_iff in E. destruct E as [E1 E2].
     rewrite (list_eqb_sound _ _ sres_eqb_sound _ _ E1), (Bool.eqb_prop _ _ E2),
             (list_eqb_sound _ _ wake_eqb_sound _ _ E3). reflexivity.
   - apply andb_true_iff in E. destruct E as [E1 E2].
     rewrite (rres_eqb_sound _ _ E1), (list_eqb_sound _ _ wake_eqb_sound _ _ E2). reflexivity.
   - rewrite (list_eqb_sound _ _ wake_eqb_sound _ _ E). reflexivity.
+  - apply andb_true_iff in E. destruct E as [E1 E2].
+    rewrite (sres_eqb_sound _ _ E1), (list_eqb_sound _ _ wake_eqb_sound _ _ E2). reflexivity.
 Qed.
 
 (* the verdict of a correspondence case: if the implementation's observations agree with the
